@@ -59,6 +59,8 @@ def chordAt (ids : List Id) (pts : List Pt) (vid : Id) : Option (Pt × Vec) :=
 
 /-- `get_vector_from_vertex(vid)` for an interface with vertex ids `ids`, points `pts`, fitted centre `c`. -/
 def vectorFromVertex (ids : List Id) (pts : List Pt) (c : Pt) (vid : Id) : Option Vec :=
-  (chordAt ids pts vid).map fun (p, ch) => tangentVec p c ch
+  (chordAt ids pts vid).map fun (p, ch) =>
+    -- `if method == "edge" and len(self.vertices) == 2: return chord` (repair of finding D1)
+    if ids.length = 2 then ch else tangentVec p c ch
 
 end Forsys
